@@ -441,6 +441,100 @@ def r165(repo, ctx):
     ctx.check(ok, 'R16.5', EF, 'EllipsoidalEnergyDescription.computeStrainEnergy', comp, 'the default energy routine is the general (different stiffness) fourth-rank routine', 'the default energy routine changed')
 
 
+def _rotation_map(expr, rot, tensor, rank):
+    """index bookkeeping of a tensor rotation written with nested np.tensordot or one np.einsum: list of
+    (output axis, tensor axis, 'R' if the rotation matrix is used as rot[out, in] else 'RT'); None if not recognised"""
+    if isinstance(expr, ast.Call) and U.call_name(expr) == 'np.einsum' and expr.args and isinstance(expr.args[0], ast.Constant) and isinstance(expr.args[0].value, str):
+        spec = expr.args[0].value.replace(' ', '')
+        if '->' not in spec:
+            return None
+        ins, outsub = spec.split('->')
+        subs = ins.split(',')
+        ops = expr.args[1:1 + len(subs)]
+        if len(ops) != len(subs):
+            return None
+        tsub = [sb for sb, o in zip(subs, ops) if isinstance(o, ast.Name) and o.id == tensor]
+        rsub = [sb for sb, o in zip(subs, ops) if isinstance(o, ast.Name) and o.id == rot]
+        if len(tsub) != 1 or len(rsub) != rank or len(tsub[0]) != rank or len(outsub) != rank or len(rsub) + 1 != len(subs):
+            return None
+        out = []
+        for sb in rsub:
+            if len(sb) != 2:
+                return None
+            a, b = sb
+            if a in outsub and b in tsub[0] and a not in tsub[0] and b not in outsub:
+                out.append((outsub.index(a), tsub[0].index(b), 'R'))
+            elif b in outsub and a in tsub[0] and b not in tsub[0] and a not in outsub:
+                out.append((outsub.index(b), tsub[0].index(a), 'RT'))
+            else:
+                return None
+        return out
+    # nested tensordot(rot, X, axes=(ra, xa)): the new axis comes first, the contracted axis of X disappears
+    axes = list(range(rank))         # current position -> original tensor axis (or ('out', k) once rotated)
+    chain = []
+    e = expr
+    while isinstance(e, ast.Call) and U.call_name(e) == 'np.tensordot' and len(e.args) >= 2:
+        ax = U.kwarg(e, 'axes') or (e.args[2] if len(e.args) > 2 else None)
+        if not (isinstance(e.args[0], ast.Name) and e.args[0].id == rot and isinstance(ax, ast.Tuple) and len(ax.elts) == 2):
+            return None
+        try:
+            chain.append((U.const_value(ax.elts[0]), U.const_value(ax.elts[1])))
+        except ValueError:
+            return None
+        e = e.args[1]
+    if not (isinstance(e, ast.Name) and e.id == tensor) or len(chain) != rank:
+        return None
+    out = []
+    cur = [('in', k) for k in range(rank)]
+    for ra, xa in reversed(chain):       # innermost first
+        if not (0 <= xa < rank) or cur[xa][0] != 'in':
+            return None
+        src_axis = cur[xa][1]
+        cur = [('out', src_axis, 'R' if ra == 1 else 'RT')] + [c for i, c in enumerate(cur) if i != xa]
+    for pos, c in enumerate(cur):
+        if c[0] != 'out':
+            return None
+        out.append((pos, c[1], c[2]))
+    return out
+
+
+def r168(repo, ctx):
+    """the tensor rotations use the rotation matrix with the same orientation on every axis and keep the axis order"""
+    n = 0
+    for fn, rank in (('rotateRank2Tensor', 2), ('rotateRank4Tensor', 4)):
+        f = repo.func(EF, fn)
+        pn = U.params(f)
+        rets = [r for r in ast.walk(f) if isinstance(r, ast.Return)]
+        if len(rets) != 1 or len(pn) < 2:
+            ctx.undecided('R16.8', EF, fn, f, 'expected a single return of the rotated tensor')
+            continue
+        from ..formula import single_defs as _sd, inline as _inl
+        m = _rotation_map(_inl(rets[0].value, _sd(f)), pn[0], pn[1], rank)
+        if m is None:
+            ctx.undecided('R16.8', EF, fn, rets[0], 'rotation is neither nested np.tensordot(rot, ., axes) nor a single np.einsum over rot and the tensor')
+            continue
+        n += 1
+        ok = sorted(m) == [(k, k, 'R') for k in range(rank)]
+        ctx.check(ok, 'R16.8', EF, fn, rets[0], f'T\'_{{i..}} = prod_k rot[i_k, m_k] T_{{m..}}: every one of the {rank} axes is rotated by rot itself, axis order kept',
+                  f'rotation does not apply rot[i, m] on every axis in place (output axis, tensor axis, orientation) = {sorted(m)}: an isotropic tensor is no longer invariant and energies depend on the crystal orientation',
+                  construct=U.src(rets[0].value)[:140])
+    ctx.floor('R16.8', n, 2)
+
+
+def r167(repo, ctx):
+    """T-SHARED: the class-level arrays of StrainEnergyParameters are shared by all instances until rebound: never written in place"""
+    from .. import sharedstate as S
+    shared = S.class_level_mutables(repo, {EF})
+    ctx.floor('R16.7', len(shared), 7)
+    hits = S.inplace_uses(repo, shared)
+    for p_, q_, node, text in hits:
+        ctx.violation('R16.7', p_, q_, node, f'{text}: the array is created in the class body of {shared[[a for a in shared if a in text][0]][0][1] if any(a in text for a in shared) else "a parameter class"} '
+                      'and shared by every instance that has not rebound it, so configuring one object changes the others (and a later object starts from the modified value)',
+                      construct=U.src(node)[:120])
+    if not hits:
+        ctx.ok('R16.7', EF, 'StrainEnergyParameters', 0, f'the {len(shared)} class-level arrays are only ever rebound on the instance, never modified in place', construct=f'shared: {sorted(shared)}')
+
+
 def check(repo, ctx, index, purity):
     ctx.explanation = EXPLANATION
     ctx.assumptions += ['exact trigonometric evaluation by sympy', 'positivity / scaling / rotation invariance / closed forms are numeric and not decided']
@@ -449,3 +543,5 @@ def check(repo, ctx, index, purity):
     r163(repo, ctx)
     r164(repo, ctx)
     r165(repo, ctx)
+    r167(repo, ctx)
+    r168(repo, ctx)
